@@ -290,6 +290,7 @@ type QueuePlan struct {
 	Order    string `json:"order"`
 	Cmp      bool   `json:"cmp"`
 	Universe int    `json:"universe"`
+	PType    string `json:"ptype,omitempty"` // "" = int priorities, "slice" = []int priorities (not comparable with ==)
 	Initial  []KPi  `json:"initial"`
 	Ops      []QOp  `json:"ops"`
 }
@@ -333,11 +334,18 @@ func genQueuePlan(t *rapid.T) QueuePlan {
 		}
 		p.Ops = append(p.Ops, o)
 	}
+	if rapid.IntRange(0, 3).Draw(t, "ptype") == 0 {
+		p.PType = "slice"
+	}
 	return p
 }
 
-type qrun struct {
-	q        xheap.PriorityQueue[int, int]
+// qrun is generic over the priority type: int, or a one-element []int (a type that == cannot
+// compare, ordered through its element; the zero value nil counts as 0).
+type qrun[P any] struct {
+	q        xheap.PriorityQueue[int, P]
+	mkP      func(int) P
+	unP      func(P) int
 	model    map[int]int
 	ord      func(a, b int) int
 	universe int
@@ -345,7 +353,7 @@ type qrun struct {
 }
 
 // arrayOrder returns the keys in heap-array order (Iterate on an unmodified queue).
-func (r *qrun) arrayOrder() []int {
+func (r *qrun[P]) arrayOrder() []int {
 	var ks []int
 	it := r.q.Iterate()
 	for {
@@ -360,7 +368,7 @@ func (r *qrun) arrayOrder() []int {
 	}
 }
 
-func (r *qrun) resolve(s KeySel) (key int, class string) {
+func (r *qrun[P]) resolve(s KeySel) (key int, class string) {
 	switch s.Mode {
 	case "new":
 		for d := 0; d < r.universe; d++ {
@@ -400,7 +408,7 @@ func (r *qrun) resolve(s KeySel) (key int, class string) {
 	return k, "absent"
 }
 
-func (r *qrun) minimal(k int) error {
+func (r *qrun[P]) minimal(k int) error {
 	p, ok := r.model[k]
 	if !ok {
 		return vk.Violf("not-held", "returned key %d which is not in the queue", k)
@@ -413,7 +421,7 @@ func (r *qrun) minimal(k int) error {
 	return nil
 }
 
-func (r *qrun) observe(what string) error {
+func (r *qrun[P]) observe(what string) error {
 	if r.q.Len() != len(r.model) {
 		return vk.Violf("len", "%s: Len()=%d model %d", what, r.q.Len(), len(r.model))
 	}
@@ -422,7 +430,7 @@ func (r *qrun) observe(what string) error {
 		if got := r.q.Contains(k); got != ok {
 			return vk.Violf("contains", "%s: Contains(%d)=%v want %v", what, k, got, ok)
 		}
-		if got := r.q.Priority(k); got != p {
+		if got := r.unP(r.q.Priority(k)); got != p {
 			return vk.Violf("priority", "%s: Priority(%d)=%d want %d (present=%v)", what, k, got, p, ok)
 		}
 	}
@@ -446,7 +454,7 @@ func (r *qrun) observe(what string) error {
 	return nil
 }
 
-func (r *qrun) hasTie() bool {
+func (r *qrun[P]) hasTie() bool {
 	seen := map[int]bool{}
 	for _, p := range r.model {
 		if seen[p] {
@@ -458,20 +466,32 @@ func (r *qrun) hasTie() bool {
 }
 
 func runQueue(p QueuePlan) (vk.Outcome, error) {
-	r := &qrun{model: map[int]int{}, ord: orders[p.Order], universe: p.Universe}
+	if p.PType == "slice" {
+		return runQueueT[[]int](p, func(x int) []int { return []int{x} }, func(s []int) int {
+			if len(s) == 0 {
+				return 0
+			}
+			return s[0]
+		})
+	}
+	return runQueueT[int](p, func(x int) int { return x }, func(x int) int { return x })
+}
+
+func runQueueT[P any](p QueuePlan, mkP func(int) P, unP func(P) int) (vk.Outcome, error) {
+	r := &qrun[P]{model: map[int]int{}, ord: orders[p.Order], universe: p.Universe, mkP: mkP, unP: unP}
 	if r.ord == nil || p.Universe < 1 {
 		return r.out, fmt.Errorf("bad plan")
 	}
 	listed := map[int][]int{}
-	var initial []xheap.KP[int, int]
+	var initial []xheap.KP[int, P]
 	for _, kp := range p.Initial {
-		initial = append(initial, xheap.KP[int, int]{K: kp.K, P: kp.P})
+		initial = append(initial, xheap.KP[int, P]{K: kp.K, P: mkP(kp.P)})
 		listed[kp.K] = append(listed[kp.K], kp.P)
 	}
 	if p.Cmp {
-		r.q = xheap.NewPriorityQueueCmp[int, int](func(a, b int) int { return 5 * r.ord(a, b) }, initial)
+		r.q = xheap.NewPriorityQueueCmp[int, P](func(a, b P) int { return 5 * r.ord(unP(a), unP(b)) }, initial)
 	} else {
-		r.q = xheap.NewPriorityQueue[int, int](func(a, b int) bool { return r.ord(a, b) < 0 }, initial)
+		r.q = xheap.NewPriorityQueue[int, P](func(a, b P) bool { return r.ord(unP(a), unP(b)) < 0 }, initial)
 	}
 	// duplicates: each distinct key once, with one of its listed priorities (which one is not documented).
 	if r.q.Len() != len(listed) {
@@ -484,7 +504,7 @@ func runQueue(p QueuePlan) (vk.Outcome, error) {
 		if !r.q.Contains(k) {
 			return r.out, vk.Violf("initial-dedup", "initial key %d missing", k)
 		}
-		got := r.q.Priority(k)
+		got := unP(r.q.Priority(k))
 		ok := false
 		for _, x := range ps {
 			if x == got {
@@ -547,7 +567,7 @@ func runQueue(p QueuePlan) (vk.Outcome, error) {
 			} else {
 				r.out.Label("update-new")
 			}
-			r.q.Update(k, pri)
+			r.q.Update(k, mkP(pri))
 			r.model[k] = pri
 		case "Remove":
 			k, class := r.resolve(o.Key)
@@ -572,8 +592,8 @@ func runQueue(p QueuePlan) (vk.Outcome, error) {
 		case "Contains", "Priority":
 			k, _ := r.resolve(o.Key)
 			pr, ok := r.model[k]
-			if r.q.Contains(k) != ok || r.q.Priority(k) != pr {
-				return r.out, vk.Violf("lookup", "%s: key %d Contains=%v Priority=%d, model %v %d", what, k, r.q.Contains(k), r.q.Priority(k), ok, pr)
+			if r.q.Contains(k) != ok || unP(r.q.Priority(k)) != pr {
+				return r.out, vk.Violf("lookup", "%s: key %d Contains=%v Priority=%v, model %v %d", what, k, r.q.Contains(k), r.q.Priority(k), ok, pr)
 			}
 		}
 		if err := r.observe(what); err != nil {
